@@ -176,6 +176,9 @@ func (p *parser) parse(t *token) {
 				if tk.i == end {
 					p.d.Add(singleMap(key, p.d.PopLast()))
 				}
+			} else {
+				// nothing that can start a value follows the rocket (the collector would be left empty)
+				panic(badSyntax(tk, exValue))
 			}
 		}
 		if tk.i != end {
